@@ -29,7 +29,7 @@ REAL = ['smartquery.lexer', 'smartquery.ply.lex', 'smartquery.sq_parser', 'evalu
 STUB = ['host names mapping (recording dict subclass)']
 REACH_PROBES = ('percent_name', 'unicode_name', 'keyword_like_name', 'name_adjacent_to_string', 'comment_with_names',
                 'lexical_error_after_names', 'abandoned_generator', 'after_failed_parse', 'lookup_subset_checked',
-                'name_adjacent_to_number', 'fault_then_judged', 'same_text_again', 'unclosed_percent')
+                'name_adjacent_to_number', 'fault_then_judged', 'same_text_again', 'unclosed_percent', 'deferred_result_consumed_later')
 IMPLICIT = {'list', 'dict', '__getitem__', '__setitem__', '__delitem__', '__setitem_with_op__'}
 
 PLAIN = ['a', 'b2', '_x', 'x_1', 'if_', 'True_', 'not_in', 'in1', 'orx', 'andy', 'nota', 'delta', 'elsewhere', 'forx', 'r', 'rr',
@@ -39,7 +39,7 @@ KEYWORDS = ['and', 'or', 'in', 'not', 'if', 'else', 'True', 'False', 'None', 'de
 STRINGS = ['"""x"""', '"abc"', "'x y'", '"a + b"', 'r"raw\\d"', "r'%v%'", '"%pct%"', '"it\'s"', '"#nocomment"', '""', '"if x"']
 NUMBERS = ['1', '42', '3.14', '007', '10.0']
 PUNCT = ['+', '-', '*', '/', '**', '==', '!=', '<', '<=', '>', '>=', '=', '+=', '=>', '(', ')', '[', ']', '{', '}', ',', '.', '|', ':', ';']
-ILLEGAL = ['$', '?', '~', '`', '@', '^', '&', '\\', '!', '"unterminated', "'open", '\x00', '☃', '"""abc', "'''x", '""" a b']
+ILLEGAL = ['$', '?', '~', '`', '@', '^', '&', '\\', '!', '"unterminated', "'open", '\x00', '☃', '"""abc', "'''x", '""" a b', '"a\\" + secret', '"hello \\"world', "'it\\'s + name"]
 
 
 def _soup(r, probes):
@@ -178,7 +178,9 @@ def generate(seed, tier):
             prog, env = _program(ro, probes)
             _, text = badsrc.make_bad(rf, lang.render(prog, 0))
             op = {'op': 'parse', 'src': text}
-        if op['op'] == 'list_names' and rf.random() < 0.3:
+        if op['op'] == 'list_names' and not op.get('lexerr') and rf.random() < 0.12:
+            op['defer'] = True          # the result is created now, held across the next call(s), and consumed later
+        elif op['op'] == 'list_names' and rf.random() < 0.3:
             op['consume'] = rf.randint(0, 3)
             op['keep_suspended'] = rf.random() < 0.5
         op['probes'] = sorted(probes)
@@ -212,9 +214,22 @@ def execute(case, ctx):
     from ..seams import make_cache
     parser = boot.fresh_parser(make_cache((case.get('world') or {}).get('cache')))
     suspended = []
+    deferred = []
     fault_before = False
     for step, op in enumerate(case['ops']):
         ctx.step = step
+        if deferred and (step - deferred[0][0] >= 2 or step == len(case['ops']) - 1):
+            # consume the oldest held (never started) result now: it must still be the names of ITS text
+            dstep, dit, dsrc, dexp = deferred.pop(0)
+            try:
+                got = list(dit)
+                exc = None
+            except Exception as e:
+                got, exc = None, e
+            ctx.probe('deferred_result_consumed_later')
+            if exc is not None or got != dexp:
+                ctx.report('wrong_names', 'list_names(%r) was called at step %d, its result consumed after %d other call(s): it yielded %s, the identifiers of '
+                           'that text are %s' % (dsrc[:160], dstep, step - dstep, got if exc is None else repr(exc), dexp), {'kind': 'wrong_names'})
         ctx.op_kind(op['op'] + (':lexerr' if op.get('lexerr') else '') + (':abandon' if op.get('consume') is not None else ''))
         src = op['src']
         for p in op.get('probes', ()):
@@ -252,6 +267,12 @@ def execute(case, ctx):
             ctx.event(step, 'eval_lookup', len(names.asked))
             continue
         # list_names
+        if op.get('defer'):
+            try:
+                deferred.append((step, parser.list_names(src), src, op['expect']))
+            except Exception as e:
+                ctx.report('list_names_raised', 'step %d list_names(%r) raised %r on a lexically valid text' % (step, src[:160], e), {'kind': 'list_names_raised'})
+            continue
         got = []
         exc = None
         n = op.get('consume')
